@@ -108,6 +108,12 @@ class Gen:
             return ["panic"]
         if k == "sem" and self.names(objs, "sem"):
             return self.sem_block(objs, ntasks)
+        if k == "randpanic":
+            # a failure that depends on the random data the execution drew
+            # (panics for one or two of the four classes of the draw, so the failing execution is rarely the first)
+            keep = [v for v in range(4) if v != r.below(4)][: 2 + r.below(2)]
+            skips = [f"if v:{v} skip {len(keep) - i}" for i, v in enumerate(keep)]
+            return (["rand"] if r.chance(2, 3) else ["rand", "rand"]) + skips + ["panic"]
         if k == "send" and self.names(objs, "chan"):
             return self.send_block(objs)
         if k == "recv" and self.names(objs, "chan"):
